@@ -523,3 +523,177 @@ Proof.
   - apply too_far_null; auto.
   - apply ibox_inter_comm_null. apply too_far_null; auto.
 Qed.
+
+(* ========================================================================================== *)
+(* Part 4: the whole vector.  own_shares_ie on the records of valid integer boxes equals, entry by entry up to ==,
+   the normalised grid shares; [others_at i bs] = all boxes of bs except the one at position i. *)
+
+Definition others_at (i : nat) (bs : list ibox) : list ibox :=
+  map snd (filter (fun jb => negb (Nat.eqb (fst jb) i)) (combine (seq 0 (length bs)) bs)).
+
+Lemma combine_map_r {A B C} (f : B -> C) : forall (l : list A) (l' : list B),
+  combine l (map f l') = map (fun p => (fst p, f (snd p))) (combine l l').
+Proof.
+  induction l as [|a l IH]; intros [|b l']; cbn [combine map]; try reflexivity. now rewrite IH.
+Qed.
+
+Lemma filter_map_swap {A B} (f : A -> B) (p : B -> bool) (l : list A) :
+  filter p (map f l) = map f (filter (fun x => p (f x)) l).
+Proof.
+  induction l as [|a l IH]; cbn [map filter]; [reflexivity|]. destruct (p (f a)); cbn [map]; now rewrite IH.
+Qed.
+
+Lemma filter_andb {A} (f g : A -> bool) (l : list A) :
+  filter (fun x => f x && g x) l = filter g (filter f l).
+Proof.
+  induction l as [|a l IH]; cbn [filter]; [reflexivity|].
+  destruct (f a); cbn [andb filter]; [destruct (g a); now rewrite IH | exact IH].
+Qed.
+
+Lemma filter_ext_in' {A} (f g : A -> bool) (l : list A) : (forall x, In x l -> f x = g x) -> filter f l = filter g l.
+Proof.
+  induction l as [|a l IH]; intros H; cbn [filter]; [reflexivity|].
+  rewrite (H a) by now left. rewrite IH; [reflexivity|]. intros; apply H; now right.
+Qed.
+
+Lemma combine_seq_nth {A B} (f : A -> B) : forall (l : list A) s j x d,
+  In (j, x) (combine (seq s (length l)) l) -> (s <= j)%nat /\ nth (j - s) (map f l) d = f x.
+Proof.
+  induction l as [|a l IH]; intros s j x d H; [contradiction|].
+  cbn [length seq combine In] in H. destruct H as [E|H].
+  - injection E as <- <-. rewrite Nat.sub_diag. split; [lia | reflexivity].
+  - destruct (IH (S s) j x d H) as [L N]. split; [lia|].
+    replace (j - s)%nat with (S (j - S s)) by lia. exact N.
+Qed.
+
+Lemma combine_seq_in_r {A} : forall (l : list A) s j x, In (j, x) (combine (seq s (length l)) l) -> In x l.
+Proof. intros l s j x H. exact (in_combine_r _ _ _ _ H). Qed.
+
+(* share_normalise respects == *)
+Lemma share_normalise_comp own own' area area' : own == own' -> area == area' ->
+  share_normalise Qops own area == share_normalise Qops own' area'.
+Proof.
+  intros E1 E2. unfold share_normalise.
+  assert (E : div Qops own (add Qops area (of_Q Qops SimilariGen.Consts.EPS)) ==
+              div Qops own' (add Qops area' (of_Q Qops SimilariGen.Consts.EPS))).
+  { rewrite !qdiv, !qadd, E1, E2. reflexivity. }
+  set (e := div Qops own (add Qops area (of_Q Qops SimilariGen.Consts.EPS))) in *.
+  set (e' := div Qops own' (add Qops area' (of_Q Qops SimilariGen.Consts.EPS))) in *.
+  assert (B : leb Qops (one Qops) e = leb Qops (one Qops) e') by (rewrite !qleb, E; reflexivity).
+  rewrite B. destruct (leb Qops (one Qops) e'); [reflexivity | exact E].
+Qed.
+
+(* the own area the inclusion-exclusion specification computes after ANY admissible pre-filter *)
+Lemma uncovered_prefiltered_area b others (keep : ibox -> bool) : ibox_ok b -> Forall ibox_ok others ->
+  (forall o, In o others -> keep o = false ->
+     too_far Qops (qbox_of_ibox b) (qbox_of_ibox o) = true \/ too_far Qops (qbox_of_ibox o) (qbox_of_ibox b) = true) ->
+  uncovered Qops (rect_vertices Qops (qbox_of_ibox b))
+            (map (fun o => rect_vertices Qops (qbox_of_ibox o)) (filter keep others))
+  == inject_Z (own_area_grid b others).
+Proof.
+  intros Ok HF HK.
+  assert (HF' : Forall ibox_ok (filter keep others)).
+  { rewrite Forall_forall in *. intros o Ho. apply filter_In in Ho. apply HF. tauto. }
+  assert (W : weak b) by (destruct Ok; unfold weak; lia).
+  assert (E : uncovered Qops (rect_vertices Qops (qbox_of_ibox b))
+                (map (fun o => rect_vertices Qops (qbox_of_ibox o)) (filter keep others))
+              == uncovered Qops (canonz b) (map canonz (filter keep others))).
+  { apply uncovered_peqv.
+    - apply Forall2_map_same. intros o Ho. apply rect_of_ibox. rewrite Forall_forall in HF'. now apply HF'.
+    - apply pe_leq. now apply rect_of_ibox. }
+  rewrite E, (uncovered_canonz (filter keep others) HF' (canonz b) b W (pe_leq _ _ (leq_refl _))).
+  rewrite (uncovered_rect_drop keep others b), own_area_grid_eq_rect; [reflexivity|].
+  intros o Ho K. rewrite Forall_forall in HF. destruct (HK o Ho K) as [T|T].
+  - apply too_far_null; auto.
+  - apply ibox_inter_comm_null. apply too_far_null; auto.
+Qed.
+
+(* near_others, on the records of integer boxes, is a too_far-filter of the other boxes *)
+Lemma near_others_of_ibox bs i b : In (i, b) (combine (seq 0 (length bs)) bs) ->
+  near_others Qops (map qbox_of_ibox bs) i =
+  map qbox_of_ibox (filter (fun o => negb (too_far Qops (qbox_of_ibox b) (qbox_of_ibox o))) (others_at i bs)).
+Proof.
+  intros Hi. unfold near_others, others_at. rewrite map_length, combine_map_r, filter_map_swap, map_map.
+  cbn [fst snd]. rewrite (filter_map_swap snd), map_map.
+  rewrite <- filter_andb. f_equal. apply filter_ext_in'. intros [j x] Hj. cbn [fst snd].
+  destruct (combine_seq_nth qbox_of_ibox bs 0 i b (mkbox (zero Qops) (zero Qops) (one Qops) (zero Qops) (one Qops) (one Qops)) Hi) as [_ Ni].
+  destruct (combine_seq_nth qbox_of_ibox bs 0 j x (mkbox (zero Qops) (zero Qops) (one Qops) (zero Qops) (one Qops) (one Qops)) Hj) as [_ Nj].
+  rewrite Nat.sub_0_r in Ni, Nj. unfold near_pair.
+  repeat match goal with |- context [@nth ?T i ?l ?d] => replace (@nth T i l d) with (qbox_of_ibox b) by (symmetry; exact Ni) end.
+  repeat match goal with |- context [@nth ?T j ?l ?d] => replace (@nth T j l d) with (qbox_of_ibox x) by (symmetry; exact Nj) end.
+  destruct (Nat.ltb i j) eqn:A.
+  - apply Nat.ltb_lt in A. assert (E : Nat.eqb j i = false) by (apply Nat.eqb_neq; lia). rewrite E. reflexivity.
+  - destruct (Nat.ltb j i) eqn:B.
+    + apply Nat.ltb_lt in B. assert (E : Nat.eqb j i = false) by (apply Nat.eqb_neq; lia). rewrite E.
+      cbn [negb andb]. now rewrite too_far_sym_lemma.
+    + apply Nat.ltb_ge in A. apply Nat.ltb_ge in B. assert (E : Nat.eqb j i = true) by (apply Nat.eqb_eq; lia).
+      rewrite E. reflexivity.
+Qed.
+
+Lemma others_at_ok bs i : Forall ibox_ok bs -> Forall ibox_ok (others_at i bs).
+Proof.
+  intros H. rewrite Forall_forall in *. intros o Ho. unfold others_at in Ho.
+  apply in_map_iff in Ho. destruct Ho as [[j x] [<- Hx]]. apply filter_In in Hx. destruct Hx as [Hx _].
+  apply H. exact (in_combine_r _ _ _ _ Hx).
+Qed.
+
+Lemma ubox_area_of_ibox r : ibox_ok r ->
+  ScalarBox.ubox_area Qops (to_ubox Qops (qbox_of_ibox r)) == inject_Z (ibox_area r).
+Proof. intros Ok. rewrite <- box_area_is_translation_lemma. now apply box_area_of_ibox. Qed.
+
+Lemma own_shares_ie_eq_grid_lemma (bs : list ibox) : Forall ibox_ok bs ->
+  Forall2 Qeq
+    (own_shares_ie Qops (map qbox_of_ibox bs))
+    (map (fun ib => share_normalise Qops (inject_Z (own_area_grid (snd ib) (others_at (fst ib) bs)))
+                                    (inject_Z (ibox_area (snd ib))))
+         (combine (seq 0 (length bs)) bs)).
+Proof.
+  intros HF. rewrite own_shares_ie_uses_translation, map_length, combine_map_r, map_map.
+  apply Forall2_map_same. intros [i b] Hib. cbn [fst snd].
+  assert (Ok : ibox_ok b) by (rewrite Forall_forall in HF; apply HF; exact (in_combine_r _ _ _ _ Hib)).
+  apply share_normalise_comp; [|now apply ubox_area_of_ibox].
+  unfold own_area_ie. rewrite (near_others_of_ibox bs i b Hib), map_map.
+  apply uncovered_prefiltered_area; [exact Ok | now apply others_at_ok|].
+  intros o _ K. left. now apply negb_false_iff in K.
+Qed.
+
+(* [others_at] is the list own_shares_grid pairs each box with (everything before it ++ everything after it) *)
+Lemma filter_neq_combine_seq : forall (l : list ibox) s i, (i < s)%nat ->
+  filter (fun jb => negb (Nat.eqb (fst jb) i)) (combine (seq s (length l)) l) = combine (seq s (length l)) l.
+Proof.
+  induction l as [|a l IH]; intros s i H; [reflexivity|].
+  cbn [length seq combine filter fst]. assert (E : Nat.eqb s i = false) by (apply Nat.eqb_neq; lia).
+  rewrite E. cbn [negb]. rewrite IH by lia. reflexivity.
+Qed.
+
+Lemma map_snd_combine_seq : forall (l : list ibox) s, map snd (combine (seq s (length l)) l) = l.
+Proof. induction l as [|a l IH]; intros s; [reflexivity|]. cbn [length seq combine map snd]. now rewrite IH. Qed.
+
+Lemma others_at_split : forall (before : list ibox) s b tl,
+  map snd (filter (fun jb => negb (Nat.eqb (fst jb) (s + length before)))
+             (combine (seq s (length (before ++ b :: tl))) (before ++ b :: tl))) = before ++ tl.
+Proof.
+  induction before as [|a before IH]; intros s b tl.
+  - cbn [app length seq combine filter fst]. rewrite Nat.add_0_r, Nat.eqb_refl. cbn [negb].
+    rewrite filter_neq_combine_seq by lia. apply map_snd_combine_seq.
+  - cbn [app length seq combine filter fst].
+    assert (E : Nat.eqb s (s + S (length before)) = false) by (apply Nat.eqb_neq; lia).
+    rewrite E. cbn [negb map snd]. f_equal.
+    replace (s + S (length before))%nat with (S s + length before)%nat by lia. apply IH.
+Qed.
+
+Lemma own_shares_grid_from_others : forall after before,
+  own_shares_grid_from before after =
+  map (fun ib => own_share_grid (snd ib) (others_at (fst ib) (before ++ after)))
+      (combine (seq (length before) (length after)) after).
+Proof.
+  induction after as [|b tl IH]; intros before; [reflexivity|].
+  cbn [own_shares_grid_from length seq combine map fst snd]. f_equal.
+  - unfold others_at. f_equal. symmetry. exact (others_at_split before 0 b tl).
+  - rewrite (IH (before ++ [b])). rewrite app_length. cbn [length]. rewrite Nat.add_1_r.
+    rewrite <- app_assoc. reflexivity.
+Qed.
+
+Lemma own_shares_grid_others bs :
+  own_shares_grid bs = map (fun ib => own_share_grid (snd ib) (others_at (fst ib) bs)) (combine (seq 0 (length bs)) bs).
+Proof. unfold own_shares_grid. exact (own_shares_grid_from_others bs []). Qed.
